@@ -84,9 +84,11 @@ Theorem zone_edge_refuted : exists st p, k_zone_edge st p = true /\ run (opts_en
 Proof. exact zone_edge_refuted_l. Qed.
 Print Assumptions zone_edge_refuted.
 
-Theorem zone_ne_refuted : exists st p, k_zone_ne st p = true /\ run (opts_engine true) st p <> sem_ops st p.
-Proof. exact zone_ne_refuted_l. Qed.
-Print Assumptions zone_ne_refuted.
+Theorem zone_ne_pre_refuted : exists c v v',
+  col_might_match_pre c ONe v = false /\ List.In v' (zhist c) /\ cmp_result ONe v' v = Some (VBool true) /\
+  col_might_match c ONe v = true /\ run (opts_engine true) w_zone_ne_st w_zone_ne_p = sem_ops w_zone_ne_st w_zone_ne_p.
+Proof. exact zone_ne_pre_refuted_l. Qed.
+Print Assumptions zone_ne_pre_refuted.
 
 Theorem index_residual_refuted : exists st p, k_index_residual st p = true /\ run (opts_engine true) st p <> sem_ops st p.
 Proof. exact index_residual_refuted_l. Qed.
